@@ -150,20 +150,36 @@ Definition usage_step (idx : N) (u : gmap string (N * N)) (kd : string * Z) : gm
 Definition write_usage_deltas (idx : N) (deltas : list (string * Z)) (u : gmap string (N * N))
   : gmap string (N * N) := foldl (usage_step idx) u deltas.
 
-(* ---------- mesh topology: pruning the upstreams a proxy no longer has ---------- *)
-Record topo := Topo { t_rows : gset (string * string) (* (upstream, downstream) *); t_index : N }.
+(* ---------- mesh topology ---------- *)
+(* The table's id index lower-cases both service names (ServiceNameIndex): a row is FOUND, REPLACED
+   and DELETED under its lower-cased names, while it keeps the spelling of the registration that created
+   it (the update path deep-copies the existing row) and while the `inserted` set of updateMeshTopology
+   compares names exactly. *)
+Definition lower_ascii (a : Ascii.ascii) : Ascii.ascii :=
+  let n := Ascii.N_of_ascii a in
+  if bool_decide (65 <= n) && bool_decide (n <= 90) then Ascii.ascii_of_N (n + 32) else a.
+Fixpoint lower (s : string) : string :=
+  match s with EmptyString => EmptyString | String a s' => String (lower_ascii a) (lower s') end.
+Definition tkey (u d : string) : string * string := (lower u, lower d).
+
+Record topo := Topo { t_rows : gmap (string * string) (string * string) (* lower-cased (upstream, downstream) -> as spelled *);
+                      t_index : N }.
 #[global] Instance eta_topo : Settable _ := settable! Topo <t_rows; t_index>.
+(* one iteration of `for u := range oldUpstreams` *)
 Definition prune_step (idx : N) (downstream : string) (inserted : gset string) (t : topo) (u : string) : topo :=
   if bool_decide (u ∈ inserted) then t
-  else t <| t_rows ::= fun r => r ∖ {[ (u, downstream) ]} |> <| t_index ::= index_max idx |>.
+  else t <| t_rows ::= delete (tkey u downstream) |> <| t_index ::= index_max idx |>.
 Definition prune_old_upstreams (idx : N) (downstream : string) (inserted : gset string)
            (old : list string) (t : topo) : topo :=
   foldl (prune_step idx downstream inserted) t old.
 
-(* updateMeshTopology as a whole: one row per upstream of the new registration (a slice, in order),
-   then the pruning loop over the map of the previous registration's upstreams *)
+(* updateMeshTopology as a whole: one row per upstream of the new registration (a slice, in order; an
+   existing row keeps its spelling), then the pruning loop over the map of the previous registration's
+   upstreams *)
 Definition add_upstream (idx : N) (downstream : string) (t : topo) (u : string) : topo :=
-  t <| t_rows ::= fun r => {[ (u, downstream) ]} ∪ r |> <| t_index ::= index_max idx |>.
+  let k := tkey u downstream in
+  t <| t_rows ::= fun r => match r !! k with Some _ => r | None => <[k := (u, downstream)]> r end |>
+    <| t_index ::= index_max idx |>.
 Definition update_mesh_topology (e : Env) (idx : N) (downstream : string) (news : list string)
            (old : gset string) (t : topo) : topo :=
   let t1 := foldl (add_upstream idx downstream) t news in
